@@ -304,22 +304,29 @@ Proof.
   pose proof (uv_enc_nonempty 4 (Z.land (fst kv) 4294967295)). lia.
 Qed.
 
+Lemma sort_tags_asc : forall l prev, wt_tagged prev l = true -> sort_tags l = l.
+Proof.
+  induction l as [|[k b] l IH]; intros prev H; [reflexivity|].
+  cbn [wt_tagged] in H. apply andb_prop in H as [H Hrest].
+  cbn [sort_tags]. rewrite (IH k Hrest).
+  destruct l as [|[k' b'] l']; [reflexivity|].
+  cbn [wt_tagged] in Hrest.
+  apply andb_prop in Hrest as [Hr _]. apply andb_prop in Hr as [Hr _].
+  apply andb_prop in Hr as [Hr _]. apply andb_prop in Hr as [Hkk _].
+  cbn [ins_tag fst]. replace (k <=? k') with true by lia. reflexivity.
+Qed.
+
 Lemma dec_tagged_enc l r :
-  (blen l <? 4294967296) && wt_tagged 0 l = true ->
+  (blen l <? 4294967296) && wt_tagged (-1) l = true ->
   dec_tagged (enc_tagged l ++ r) = Some (l, r).
 Proof.
   intros Hwt. apply andb_prop in Hwt as [Hlen Hwt].
-  unfold dec_tagged, enc_tagged. rewrite <- app_assoc.
+  unfold dec_tagged, enc_tagged. rewrite (sort_tags_asc l (-1) Hwt). rewrite <- app_assoc.
   rewrite dec_uvarint_enc by (unfold blen in *; lia).
   pose proof (tagged_fields_length l) as Hfl.
   match goal with |- (if ?c then _ else _) = _ => destruct c eqn:E end.
   { exfalso. rewrite blen_app in E. unfold blen in E, Hfl. lia. }
   rewrite to_nat_blen.
-  assert (Hwt' : wt_tagged (-1) l = true).
-  { destruct l as [|[k b] l]; [reflexivity|]. cbn [wt_tagged] in *.
-    apply andb_prop in Hwt as [Hwt Hrest]. apply andb_prop in Hwt as [Hwt Hblen].
-    apply andb_prop in Hwt as [Hwt Hb]. apply andb_prop in Hwt as [Hk1 Hk2].
-    rewrite Hrest, Hblen, Hb, Hk2. replace (-1 <? k) with true by lia. reflexivity. }
   apply dec_tagged_loop_enc; [lia|assumption].
 Qed.
 
